@@ -429,6 +429,8 @@ PROPS.update({
                       "(each call under its issuer, each Aspect execution with its own gas used/output/error, nothing twice or missing); with onlyTopCall it is the top frame with every Aspect execution once in entry order; "
                       "flatCallTracer's callbacks leave the frame of the tree minus the precompile calls it filters, and its result lists each frame of that tree once in the shape 'frame, then its children's traces at indices 0..subtraces-1', "
                       "from which uniqueness, prefix-closure and 'subtraces = number of emitted children' are proved; no stream of callbacks at all (well nested or not) makes either tracer panic. "
+                      "Cross-model theorems (Proofs/Exec_stream.v): the callbacks the frame logic of Model/Exec.v makes below the top level ARE such a well-nested stream (a forest of call trees with the Aspects of each CALL's pre and post join point), "
+                      "hence the call tracer fed the callbacks of a real nested CALL appends exactly the frames of what ran. "
                       "The executable model is run against the real tracers on every case (the full JSON is compared).",
         "level_note": COMMON_NOTE + "Modelled, not verified: JSON marshalling (gen_callframe_json.go) is covered only by the correspondence (every field is parsed back from the JSON); revertReason, execContext, logs (withLog) and block/tx context fields are not modelled; "
                       "the EVM reports a revert only with the vm.ErrExecutionReverted sentinel (text comparison in the model); flat_c is fuelled (8192 > call depth limit). "
